@@ -144,6 +144,10 @@ pub enum WireFault {
     /// a chain of `n` well-formed signed-public-key elements (the bottom LMS signature followed by the
     /// top-level LMS public key), then the bottom LMS signature: parses as deep as the parser allows
     Chain { n: u32, adjust_pk: bool },
+    /// a structurally well-formed signature for an arbitrary per-level (w, h) list — lengths consistent with
+    /// the claimed type codes, including heights no real tree can be built for — filled with PRNG bytes;
+    /// adjust_pk: also present a public key whose level count and type codes match it
+    Synthetic { params: Vec<(u32, u32)>, cseed: u64, adjust_pk: bool },
 }
 
 #[derive(Serialize, Deserialize, Clone, Debug, PartialEq, Eq, Hash)]
